@@ -473,6 +473,10 @@ Definition parse_command (fx : bool) (raw : bytes) : presult :=
     | _ => PErr
     end.
 
+(** [parse_command] in the mode the Rust text is in (tools/params/p31_query_numeric.py reads whether
+    the conversions in query.rs [unwrap()] or are fallible [{? }] actions) *)
+Definition parse_command_cur (raw : bytes) : presult := parse_command query_numeric_fallible raw.
+
 (** When the input has non-ASCII text outside string literals ([PDomain]) the Rust tokenizer either
     rejects it (the character is not alphanumeric) or lets it through; for the heads that hand the
     raw text to a peg grammar the result is then the grammar's.  [peg_fallback] is that result:
